@@ -98,6 +98,7 @@ func VerifC20_Misuse() {
 		}
 	}))
 	vcheck("misuse/set-missing", vpanics(func() { mv.Set(noVel, &vVel{1}) }) == vExpectPanic("set-missing"))
+	vcheck("misuse/map-set-missing", vpanics(func() { NewMap[vVel](W.w).Set(noVel, &vVel{1}) }) == vExpectPanic("set-missing"))
 	vcheck("misuse/unsafe-get-missing", vpanics(func() { W.u.Get(noVel, W.id[cB]) }) == vExpectPanic("unsafe-get-missing"))
 	vcheck("misuse/getrelation-missing", vpanics(func() { W.u.GetRelation(noVel, W.id[cR1]) }) == vExpectPanic("getrelation-missing"))
 	_ = mp
